@@ -138,7 +138,7 @@ def run(tier, fx=None, ck=None, control=False):
         fx = F.load("A")
         ck.configs.append("A: cargo +nightly check --lib --features c-api")
     pre = "" if not control else "ctl:"
-    resolve = [f for p, f in fx.fns.items() if p.endswith(MP + "::resolve") and not f.closure]
+    resolve = [f for p, f in fx.fns.items() if p.endswith(MP + "::resolve") and not f.closure and (not control or p.startswith("c18::"))]
     if not ck.anchor(len(resolve) == 1, pre + "function ModulePath::resolve"):
         return ck.finish() if own else None
     resolve = resolve[0]
